@@ -40,22 +40,98 @@ class Table:
         return [a for a in self.atoms if all(n in a for n in needles)]
 
 
-def _collect(stmts, out, objs, descend_loops):
+def _boolform(v):
+    return (isinstance(v, ast.Constant) and isinstance(v.value, bool)) or isinstance(v, (ast.Compare, ast.BoolOp)) or \
+        (isinstance(v, ast.UnaryOp) and isinstance(v.op, ast.Not))
+
+
+def _flag_names(stmts, descend_loops):
+    """locals whose truth value is followed through the abstract run instead of being a free atom: every binding in the
+    analysed statements is a plain assignment and at least one assigns a boolean form (True/False, comparison, not/and/or)"""
+    vals = {}
+
+    def bind(t, v):
+        for n in ast.walk(t):
+            if isinstance(n, ast.Name):
+                vals.setdefault(n.id, []).append(v if isinstance(t, ast.Name) else None)
+
+    def rec(body):
+        for st in body:
+            if isinstance(st, ast.Assign):
+                for t in st.targets:
+                    bind(t, st.value)
+            elif isinstance(st, (ast.AugAssign, ast.AnnAssign)):
+                bind(st.target, None)
+            elif isinstance(st, (ast.For, ast.AsyncFor)):
+                bind(st.target, None)
+                if descend_loops:
+                    rec(st.body)
+                else:
+                    for n in ast.walk(st):          # bindings inside a loop that is not run: not trackable
+                        if isinstance(n, ast.Name) and isinstance(n.ctx, ast.Store):
+                            vals.setdefault(n.id, []).append(None)
+            elif isinstance(st, ast.While):
+                if descend_loops:
+                    rec(st.body)
+                else:
+                    for n in ast.walk(st):
+                        if isinstance(n, ast.Name) and isinstance(n.ctx, ast.Store):
+                            vals.setdefault(n.id, []).append(None)
+            elif isinstance(st, (ast.With, ast.AsyncWith)):
+                for it in st.items:
+                    if it.optional_vars is not None:
+                        bind(it.optional_vars, None)
+                rec(st.body)
+            elif isinstance(st, ast.If):
+                rec(st.body)
+                rec(st.orelse)
+            elif isinstance(st, ast.Try):
+                rec(st.body)
+                rec(st.orelse)
+                rec(st.finalbody)
+                for h in st.handlers:
+                    if h.name:
+                        vals.setdefault(h.name, []).append(None)
+                    for n in ast.walk(h):
+                        if isinstance(n, ast.Name) and isinstance(n.ctx, ast.Store):
+                            vals.setdefault(n.id, []).append(None)
+    rec(stmts)
+    return {n for n, vs in vals.items() if all(v is not None for v in vs) and any(_boolform(v) for v in vs)}
+
+
+class _Env:
+    """atom text -> bool: tracked flags first, then the row's assignment (recording which atoms were consulted)"""
+
+    def __init__(self, asg, used):
+        self.asg, self.flags, self.used = asg, {}, used
+
+    def __getitem__(self, k):
+        if k in self.flags:
+            return self.flags[k]
+        self.used.add(k)
+        return self.asg[k]
+
+
+def _collect(stmts, out, objs, descend_loops, flags=()):
     for st in stmts:
+        if isinstance(st, ast.Assign) and len(st.targets) == 1 and isinstance(st.targets[0], ast.Name) and st.targets[0].id in flags:
+            for at, pol in all_atoms(st.value):
+                out.add(at.text)
+                objs.setdefault(at.text, at)
         if isinstance(st, ast.If):
             for at, pol in all_atoms(st.test):
                 out.add(at.text)
                 objs.setdefault(at.text, at)
-            _collect(st.body, out, objs, descend_loops)
-            _collect(st.orelse, out, objs, descend_loops)
+            _collect(st.body, out, objs, descend_loops, flags)
+            _collect(st.orelse, out, objs, descend_loops, flags)
         elif isinstance(st, (ast.With, ast.AsyncWith)):
-            _collect(st.body, out, objs, descend_loops)
+            _collect(st.body, out, objs, descend_loops, flags)
         elif isinstance(st, ast.Try):
-            _collect(st.body, out, objs, descend_loops)
-            _collect(st.orelse, out, objs, descend_loops)
-            _collect(st.finalbody, out, objs, descend_loops)
+            _collect(st.body, out, objs, descend_loops, flags)
+            _collect(st.orelse, out, objs, descend_loops, flags)
+            _collect(st.finalbody, out, objs, descend_loops, flags)
         elif isinstance(st, (ast.For, ast.While)) and descend_loops:
-            _collect(st.body, out, objs, descend_loops)
+            _collect(st.body, out, objs, descend_loops, flags)
         elif isinstance(st, ast.Assert):
             pass
 
@@ -66,6 +142,9 @@ def _run(stmts, asg, events, event_of, terminal_yield, descend_loops):
             ev = event_of(st)
             if ev is not None:
                 events.append(ev)
+        if isinstance(asg, _Env) and isinstance(st, ast.Assign) and len(st.targets) == 1 and isinstance(st.targets[0], ast.Name) and \
+                st.targets[0].id in asg.tracked:
+            asg.flags[st.targets[0].id] = eval_struct(literals(st.value), asg)
         if isinstance(st, ast.If):
             branch = st.body if eval_struct(literals(st.test), asg) else st.orelse
             _run(branch, asg, events, event_of, terminal_yield, descend_loops)
@@ -90,13 +169,16 @@ def _run(stmts, asg, events, event_of, terminal_yield, descend_loops):
 def table(stmts, classify, event_of=None, terminal_yield=True, descend_loops=False):
     """classify(node or None) -> outcome label; event_of(stmt) -> label or None"""
     atoms, objs = set(), {}
-    _collect(stmts, atoms, objs, descend_loops)
+    flags = _flag_names(stmts, descend_loops)
+    _collect(stmts, atoms, objs, descend_loops, flags)
     atoms = sorted(atoms)
     if len(atoms) > MAX_ATOMS:
         raise Undecided('decision table with %d atoms' % len(atoms))
     rows, evs = {}, {}
+    used = set()
     for vals in itertools.product([False, True], repeat=len(atoms)):
-        asg = dict(zip(atoms, vals))
+        asg = _Env(dict(zip(atoms, vals)), used)
+        asg.tracked = flags
         events = []
         try:
             _run(stmts, asg, events, event_of, terminal_yield, descend_loops)
@@ -105,6 +187,13 @@ def table(stmts, classify, event_of=None, terminal_yield=True, descend_loops=Fal
             out = classify(o.node)
         rows[vals] = out
         evs[vals] = tuple(events)
+    # a tracked flag that was never read before its first assignment is not an input of the table
+    drop = [i for i, a in enumerate(atoms) if a in flags and a not in used]
+    if drop:
+        keep = [i for i in range(len(atoms)) if i not in drop]
+        atoms = [atoms[i] for i in keep]
+        rows = {tuple(v[i] for i in keep): o for v, o in rows.items()}
+        evs = {tuple(v[i] for i in keep): o for v, o in evs.items()}
     t = Table(atoms, rows, evs)
     t.atom_objs = objs
     return t
